@@ -172,6 +172,21 @@ class StrK(Kind):
         return bytes(ord(c) for c in s) if self.is_bytes else s
 
 
+class BlobK(StrK):
+    """a byte string used only as an opaque payload: its length is a separate integer symbol and no alphabet constraint
+    is given to the solver (so path feasibility never needs the string theory)"""
+
+    def sym(self, name):
+        return SStr(z3.String(name), True, z3.Int(name + "_len"))
+
+    def constraint(self, v):
+        return v.known_len >= 0
+
+    def from_model(self, model, v):
+        n = mval(model, v.known_len).as_long()
+        return bytes((i * 37 + 1) % 256 for i in range(min(n, 4096)))
+
+
 def decode_z3_string(s):
     import re
     return re.sub(r"\\u\{([0-9a-fA-F]+)\}", lambda m: chr(int(m.group(1), 16)), s)
